@@ -86,6 +86,19 @@ class ListGeomArray(Sort):
                     cur.append(cur[-1] + 2 * rng.choice([0, 1, 1, 2, 3, 4]))
                 else:
                     cur.append(cur[-1] + rng.choice([0, 1, 1, 2]))
+            if (k == L - 2 and self.cls in ('PolygonArray', 'MultiPolygonArray') and counts[-1] >= 2 and rng.random() < 0.3):
+                # as many rings as polygons, some polygon with holes and some without any ring: offsets arrays of
+                # equal length (a coincidence that "no holes" shortcuts are tempted to test for)
+                m = counts[-1]
+                per = [1] * m
+                for _ in range(rng.randint(1, max(1, m // 2))):
+                    a_, b_ = rng.randrange(m), rng.randrange(m)
+                    if a_ != b_ and per[b_] > 0:
+                        per[a_] += 1
+                        per[b_] -= 1
+                cur = [0]
+                for c_ in per:
+                    cur.append(cur[-1] + c_)
             levels.append(cur)
             counts.append(cur[-1])
         values = [gen_float(rng, self.finite) for _ in range(levels[-1][-1])]
